@@ -15,13 +15,14 @@ import (
 // by construction and is three-valued where the statement is silent (gray).
 
 type genReq struct {
-	Method string   `json:"method"`
-	Body   string   `json:"body"`             // the body, or its head when padded
-	PadLen int      `json:"padLen,omitempty"` // over-long bodies: this many bytes of padding are inserted
-	PadAt  string   `json:"padAt,omitempty"`  // "whitespace-prefix" | "digits:<field>"
-	Class  string   `json:"class"`            // grammar class
-	Expect string   `json:"expect"`           // 405 | malformed | proving_error | valid | gray
-	Hash   *big.Int `json:"hash,omitempty"`   // the request's input hash (for checking a 200 body)
+	Method  string   `json:"method"`
+	Body    string   `json:"body"`              // the body, or its head when padded
+	PadLen  int      `json:"padLen,omitempty"`  // over-long bodies: this many bytes of padding are inserted
+	PadAt   string   `json:"padAt,omitempty"`   // "whitespace-prefix" | "digits:<field>"
+	Class   string   `json:"class"`             // grammar class
+	Expect  string   `json:"expect"`            // 405 | malformed | proving_error | valid | gray
+	Hash    *big.Int `json:"hash,omitempty"`    // the request's input hash (for checking a 200 body)
+	Framing string   `json:"framing,omitempty"` // "" (Content-Length) | chunked | expect-continue
 }
 
 func (r genReq) bytes() []byte {
@@ -43,7 +44,41 @@ func marshalTree(d map[string]any) string {
 	return string(raw)
 }
 
+// genRequest draws a request and, for POSTs, its HTTP framing and (for documents) an escaped spelling.
 func genRequest(t *rapid.T, mode string, depth, batch int) genReq {
+	r := genRequestBody(t, mode, depth, batch)
+	if r.Method == "POST" && r.PadLen == 0 {
+		r.Framing = pick(t, "framing", "", "", "", "", "chunked", "expect-continue")
+		if strings.HasPrefix(r.Body, "{") && rapid.IntRange(0, 7).Draw(t, "escape") == 0 {
+			// the same document with some characters of its strings spelt as \uXXXX escapes (legal JSON, same meaning)
+			r.Body = escapeSomeStringChars(r.Body)
+			r.Class += "+escaped"
+		}
+	}
+	return r
+}
+
+// escapeSomeStringChars rewrites every 'x' and every '1' inside the document as a JSON unicode escape.
+// Only characters inside strings of our documents are affected (keys and numeric strings contain no
+// backslashes or quotes), so the result denotes the same JSON value.
+func escapeSomeStringChars(doc string) string {
+	var sb strings.Builder
+	in := false
+	for i := 0; i < len(doc); i++ {
+		c := doc[i]
+		if c == '"' {
+			in = !in
+		}
+		if in && (c == 'x' || c == '1') {
+			sb.WriteString(fmt.Sprintf("\\u%04x", c))
+			continue
+		}
+		sb.WriteByte(c)
+	}
+	return sb.String()
+}
+
+func genRequestBody(t *rapid.T, mode string, depth, batch int) genReq {
 	kind := rapid.IntRange(0, 19).Draw(t, "req_kind")
 	switch {
 	case kind == 0: // other method, arbitrary body
